@@ -314,12 +314,15 @@ theorem C01_reject (s : DrvState) (buf : Bytes) (m askNoAck : Bool) (forceRetry 
 
 example : ∃ s : DrvState, s.Wf ∧ s.d.dynPl &&& 1 ≠ 0 := ⟨{ d := {}, w := World.fresh 1 }, by decide, by decide⟩
 
-/-- **The caller's buffer is never modified.**  In the model `write`/`send` return, next to their
-    result, the caller's buffer object as it is after the call (`bytearray` or `bytes`, flag `m`):
-    in every state, for every argument and outcome, it equals the buffer passed in.  (Immediate from
-    the model since the fix a988495 replaced the in-place `buf += …` by `buf = buf + …`; the model
-    follows the repaired code, and the correspondence run compares the caller's object after every
-    call on the real code.) -/
+/-- **The caller's buffer is never modified — MODEL TAUTOLOGY, not evidence for the clause.**  In the
+    model `write`/`send` return, next to their result, "the caller's buffer object as it is after the
+    call"; but `Rf24.write` ignores the buffer kind (`let _ := mutableBuf`) and literally returns its
+    argument, so this theorem holds for every model of that shape and cannot fail: the original
+    in-place `buf += …` (defect D1, fixed by a988495: `buf = buf + …`) is not even expressible in it,
+    and the `∀ m` is empty.  The clause "the caller's buffer is never modified" is therefore decided
+    by the CORRESPONDENCE RUN ONLY (tie-only): the harness compares the caller's real `bytearray` /
+    `bytes` object after every call on the real code.  The theorem merely records that the model
+    follows the repaired code. -/
 theorem C01_buffer_unchanged (s : DrvState) (buf : Bytes) (m askNoAck : Bool) (forceRetry : Int) (sendOnly : Bool) :
     (∀ r, (exec (write buf m askNoAck) s).1 = .ok r → r.2 = buf) ∧
     (∀ r, (exec (send buf m askNoAck forceRetry sendOnly) s).1 = .ok r → r.2 = buf) :=
